@@ -345,6 +345,9 @@ func arrayLen(t types.Type) (int64, bool) {
 // addrOf resolves an address-valued SSA value; ok=false when the location is not tracked
 // (slice elements).
 func (it *interp) addrOf(d *disjunct, f frameID, v ssa.Value) (addr, bool) {
+	if r, ok := d.vals[valKey{f, v}]; ok && r.kind == kPtr && r.at != nil {
+		return *r.at, true // bound parameter / captured variable / known pointer
+	}
 	switch x := v.(type) {
 	case *ssa.Alloc:
 		return addr{root: valKey{f, x}}, true
